@@ -133,6 +133,7 @@ def check(pm: ProgramModel, ctx: Ctx) -> None:
     from ..codec import stress_trees
     cd.report("VOC", "stress-shapes", cd.roundtrip(ctc_model(mb, stress_trees(mb))),
               "constraint shapes that stress normal forms", ("constraint", "constraint-count"))
+    cd.large(mb, BINARY_LOGICAL)
     cd.finish_unowned()
     ctx.analysed["C05:compositions"] = cd.n
     ctx.floor(rule, "obligations", len(ctx.obligations), 40)
